@@ -61,6 +61,9 @@ TrServe ==
                  <<"group dispatch", Ev.ev, Ev.inst, Ev.method, Ev.path, Ev.host, Ev.accept, "got", R.kind, R.rname, R.h, R.params, R.urlPath,
                    "want", SetSeq({<<ObsKind(o), o.rname, o.h, o.params, o.urlPath>> : o \in O})>>)
         /\ Check("C09", (plain /\ O # {}) => \E o \in O : SameReply(o) /\ R.order = o.order, <<"order", Ev.path, R.kind, R.rname, R.order>>)
+        \* C07: what a router answers depends on its own state only - not on calls made on the other routers of the group
+        /\ Check("C07", (plain /\ O # {}) => \E o \in O : SameReply(o) /\ R.order = o.order,
+                 <<"a router's answer depends on another instance", Ev.path, R.kind, R.rname, R.order, "want", SetSeq({<<ObsKind(o), o.rname, o.order>> : o \in O})>>)
         /\ Check("C13", (plain /\ Ev.ev = "gserve" /\ R.kind = "gnf") => R.finalPath = Ev.path, <<"request path changed by rejecting matchers", Ev.path, R.finalPath>>)
         /\ Check("C16", (O # {} /\ ~outOfScope) => \E o \in O : Explains(o),
                  <<"recovery", Ev.ev, Ev.inst, Ev.method, Ev.path, Ev.faults, "got", R.kind, R.order, R.escaped, R.escval, R.recovered,
